@@ -349,8 +349,22 @@ func GetAttr(v Value, attr Value, args ...Value) (Value, error) {
 			retval = r.Index(index)
 		}
 	}
+	if !retval.IsValid() && r.Kind() != reflect.Struct {
+		// Not an element: maybe a method of a named map, slice or basic type
+		// (url.Values.Get, time.Duration.Seconds).
+		if name, ok := attr.(string); ok {
+			if m, err := getMethod(v, name); err == nil {
+				retval = m
+			}
+		}
+	}
 	if !retval.IsValid() {
 		return nil, fmt.Errorf("getattr: unable to locate attribute \"%s\" on \"%s\"", describe(attr), describe(v))
+	}
+	if retval.Kind() == reflect.Interface && !retval.IsNil() {
+		// An element of a hash or of a []Value: look at what it holds, a
+		// function stored there is called like a method.
+		retval = retval.Elem()
 	}
 	if retval.Kind() == reflect.Func {
 		t := retval.Type()
@@ -459,9 +473,13 @@ func fieldByName(r reflect.Value, name string) reflect.Value {
 // numeric types when that loses nothing, and anything can be used as a string
 // through CoerceString. The second result is false if val cannot be used.
 func convertValue(val Value, t reflect.Type) (reflect.Value, bool) {
-	if sv, ok := val.(SafeValue); ok && !reflect.TypeOf(val).AssignableTo(t) && !nilReceiver(sv, "Value") {
-		// A value marked as safe is, as a key or an argument, the value inside.
-		return convertValue(sv.Value(), t)
+	if sv, ok := val.(SafeValue); ok && !nilReceiver(sv, "Value") {
+		// A value marked as safe is, as a key or an argument, the value inside
+		// (unless a SafeValue is what is asked for).
+		wanted := reflect.TypeOf(val).AssignableTo(t) && !(t.Kind() == reflect.Interface && t.NumMethod() == 0)
+		if !wanted {
+			return convertValue(sv.Value(), t)
+		}
 	}
 	rv := reflect.ValueOf(val)
 	if !rv.IsValid() {
